@@ -353,10 +353,21 @@ func runTasks(tasks []task, specFor func(*loadedGroup) string, jobs int, perTask
 type KnownFinding struct {
 	Property string            `json:"property"`
 	ID       string            `json:"id"` // <harness>/<obligation id>
+	// IDPattern (optional): a regular expression over <harness>/<obligation id> for a finding that surfaces in several
+	// harnesses under one cause-specific obligation label
+	IDPattern string `json:"id_pattern,omitempty"`
 	Status   string            `json:"status"` // open | fixed
 	Commit   string            `json:"commit,omitempty"`
 	What     string            `json:"what"`
 	Witness  map[string]string `json:"witness,omitempty"`
+}
+
+func matchesPattern(pat, s string) bool {
+	if pat == "" {
+		return false
+	}
+	re, err := regexp.Compile(pat)
+	return err == nil && re.MatchString(s)
 }
 
 func loadKnown() ([]KnownFinding, error) {
@@ -768,7 +779,7 @@ func finishCheck(ps *PropSpec, tier string, seed int, t0 time.Time, work string,
 		case strings.HasPrefix(v.Verdict, "REPRODUCED"):
 			var kf *KnownFinding
 			for i := range known {
-				if known[i].Property == prop && known[i].ID == full && known[i].Status == "open" {
+				if known[i].Property == prop && known[i].Status == "open" && (known[i].ID == full || matchesPattern(known[i].IDPattern, full)) {
 					kf = &known[i]
 				}
 			}
